@@ -152,7 +152,14 @@ func (n *sNode) trans(op sOp) *sTrans {
 
 // ---- real store adapters ---------------------------------------------------------------
 
+// "No roots" reaches the library as a nil slice every other time and as an empty one otherwise: both mean
+// the same root list and must give the same header.
+var noRootsFlip atomic.Uint32
+
 func idsToCids(ids []string) []cid.Cid {
+	if len(ids) == 0 && noRootsFlip.Add(1)%2 == 1 {
+		return nil
+	}
 	out := make([]cid.Cid, 0, len(ids))
 	for _, id := range ids {
 		out = append(out, alphaByID[id].Cid)
